@@ -309,6 +309,7 @@ func c04R3(c *Ctx) {
 				return true
 			}
 			hasAppend, hasInc := false, false
+			counter := "" // the code counter: the variable the loop increments (identified by role)
 			var start int64 = -1
 			ast.Inspect(x.Body, func(m ast.Node) bool {
 				switch y := m.(type) {
@@ -325,22 +326,28 @@ func c04R3(c *Ctx) {
 						}
 					}
 				case *ast.AssignStmt:
-					if y.Tok == token.ADD_ASSIGN && len(y.Rhs) == 1 {
+					if y.Tok == token.ADD_ASSIGN && len(y.Rhs) == 1 && len(y.Lhs) == 1 {
 						if v, ok := c.Pkg.TypesInfo.Types[y.Rhs[0]]; ok && v.Value != nil {
 							if n, _ := constant.Int64Val(v.Value); n == 1 {
 								hasInc = true
+								if id, ok := y.Lhs[0].(*ast.Ident); ok {
+									counter = id.Name
+								}
 							}
 						}
 					}
 				case *ast.IncDecStmt:
 					hasInc = y.Tok == token.INC
+					if id, ok := y.X.(*ast.Ident); ok && hasInc {
+						counter = id.Name
+					}
 				}
 				return true
 			})
 			// the start value: e := byte('A') in the enclosing block
 			ast.Inspect(fd.Body, func(m ast.Node) bool {
 				if as, ok := m.(*ast.AssignStmt); ok && as.Tok == token.DEFINE && len(as.Lhs) == 1 && len(as.Rhs) == 1 {
-					if id, ok := as.Lhs[0].(*ast.Ident); ok && id.Name == "e" {
+					if id, ok := as.Lhs[0].(*ast.Ident); ok && counter != "" && id.Name == counter {
 						if v, ok := c.Pkg.TypesInfo.Types[as.Rhs[0]]; ok && v.Value != nil {
 							start, _ = constant.Int64Val(v.Value)
 						}
@@ -596,7 +603,7 @@ func classifyPayload(c *Ctx, f *ssa.Function, v ssa.Value) string {
 			cls = "a constant protocol fragment"
 		case isFieldLoad("Newline")(l.V):
 			cls = "the negotiated newline"
-		case func() bool { p, ok := l.V.(*ssa.Parameter); return ok && (p.Name() == "buffer" || p.Name() == "buf") }():
+		case func() bool { p, ok := l.V.(*ssa.Parameter); return ok && (paramName(p) == "buffer" || paramName(p) == "buf") }():
 			// sendDataV2(buffer): produced by the framer / split of framer data — traced by C01-R1's placement
 			cls = "framer output handed in by the send stage"
 		default:
